@@ -46,6 +46,7 @@ type Frame struct {
 	oblFn    string // obligation name prefix (top-level function key)
 	label    string // "" for top-level; "inl:callee" for inlined frames
 	nopanic  bool
+	nopanicGuard string // `nopanic if E`: E at function entry ("" = unconditional)
 	lockOnly bool
 	tc       *TypeContract // lock discipline of the top-level receiver type (C10)
 	lockAddr string        // address of the top-level receiver's lock
@@ -101,6 +102,13 @@ func (fr *Frame) safety(label, cond, goal string, p token.Pos, desc string) {
 		return
 	}
 	if fr.top().nopanic {
+		if g := fr.top().nopanicGuard; g != "" {
+			// conditional totality: the obligation is owed only for entry states satisfying the guard; on every
+			// path that continues the condition held anyway
+			fr.vc.oblige("safety", fr.top().oblFn, fr.oblName(label), andAll(cond, g), goal, fr.pos(p), desc)
+			fr.vc.fact(cond, goal)
+			return
+		}
 		fr.vc.oblige("safety", fr.top().oblFn, fr.oblName(label), cond, goal, fr.pos(p), desc)
 	} else {
 		fr.vc.fact(cond, goal)
@@ -1030,7 +1038,11 @@ func (fr *Frame) instr(st *State, ins ssa.Instruction) {
 		}
 		fr.top().panics = append(fr.top().panics, retRec{cond: cond, st: ps})
 		if fr.top().nopanic && !fr.top().lockOnly {
-			vc.oblige("safety", fr.top().oblFn, fr.oblName("panic"), cond, "false", fr.pos(x.Pos()), "explicit panic reachable")
+			pc := cond
+			if g := fr.top().nopanicGuard; g != "" {
+				pc = andAll(cond, g)
+			}
+			vc.oblige("safety", fr.top().oblFn, fr.oblName("panic"), pc, "false", fr.pos(x.Pos()), "explicit panic reachable")
 		}
 	case *ssa.If, *ssa.Jump:
 	case *ssa.Send, *ssa.Select:
